@@ -619,7 +619,19 @@ def run(ctx):
         rules.append(r3_append(ctx))
     else:
         rules.append(r3_join(ctx))
-    return rules + [r4_emission(ctx), r5_pairing(ctx), r6_display(ctx)]
+    # the text of a literal is read through its index in its own locale's table: the indexing clauses of C11 (one fresh indexer
+    # per locale, a literal's index written only from push_str, everything rendered is indexed; decided by rules/c11.py)
+    from rules import c11
+    from rules.common import borrow
+    prog = ctx.mir("main")
+    r7 = Rule("C01.R7", "a literal's index points at its own text in its own locale's table",
+              "`nothing is ... taken from another key, subkey group, namespace or locale`: the generated accessor reads `table[index]`; an index "
+              "handed out against another locale's table, or a table missing a string, shows the text of another key", floor=20)
+    for k in (c11.r1_indexer(ctx, prog), c11.r2_single_writer(ctx, prog), c11.r3_traversal(ctx, prog), c11.r4_subkey_push(ctx)):
+        b = borrow(k, "C01.R7", r7.title, r7.reason)
+        r7.instances += b.instances
+        r7.violations += b.violations
+    return rules + [r4_emission(ctx), r5_pairing(ctx), r6_display(ctx), r7]
 
 
 MANIFEST_ENTRY = {
